@@ -267,6 +267,7 @@ func main() {
 	os.MkdirAll(*outDir, 0755)
 	fc := &fileCache{fset: token.NewFileSet(), files: map[string]*ast.File{}}
 	genOracle(fc)
+	genGov(fc)
 	var names []string
 	for k := range fc.files {
 		names = append(names, k)
